@@ -133,6 +133,12 @@ def check(src, rep):
                 if not ok:
                     return ("C4-slice-holds-what-the-columns-hold", call, "gives %s; columns %d..%d hold %s"
                             % ([(c, dict(e)) for c, e in got], a, b - 1, [(x[0], dict(x[1])) if x else "?" for x in want]))
+                try:
+                    own_w = it.folder.obj_attr(r[1], "width")
+                except Exception as e:
+                    own_w = "raises %s" % getattr(e, "name", e)
+                if got_w == want_w and own_w != want_w and got:
+                    return ("C3-slice-has-the-width-of-the-existing-columns", call, "the slice holds %d column(s) of characters but its own .width says %s" % (got_w, own_w))
                 if got_w != want_w:
                     return ("C3-slice-has-the-width-of-the-existing-columns", call, "the slice is %d column(s) wide, %d of the requested columns exist" % (got_w, want_w))
         return None
